@@ -747,3 +747,61 @@ Definition show_res (probes : nl) (x : res * bool) : string :=
   let s := fst x in
   (if snd x then "ok " else "KeyError ") ++ show_names (res_names s) ++ " | " ++
   join " " (map (fun p => match r_map s p with Some i => pos_of i (r_atoms s) 0 | None => "-" end) probes).
+
+(* ---- enumeration of the reachable states with a label path to each -------
+   (used by the harness to drive REAL protocol objects to every reachable
+   ordered name state before complete) *)
+Section Paths.
+  Variable L : Type.
+  Variable step : pst -> L -> outcome.
+  Variable labels : list L.
+
+  Fixpoint explore_p (fuel : nat) (todo : list (pst * list L)) (seen : list pst)
+                     (out : list (pst * list L)) : list (pst * list L) :=
+    match fuel with
+    | 0 => out
+    | S f => match todo with
+             | [] => out
+             | (s, p) :: r =>
+                 if memP s seen then explore_p f r seen out
+                 else
+                   let nxt := flat_map (fun l => match step s l with
+                                                 | Next s' _ => [(s', (p ++ [l])%list)]
+                                                 | _ => []
+                                                 end) labels in
+                   explore_p f (r ++ nxt)%list (s :: seen) ((s, p) :: out)
+             end
+    end.
+
+  Definition paths_from (o : outcome) : list (pst * list L) :=
+    match o with
+    | Next s0 _ => rev (explore_p (FUEL * 8) [(s0, [])] [] [])
+    | _ => []
+    end.
+
+  Definition show_paths (showl : L -> string) (l : list (pst * list L)) : string :=
+    join "|" (map (fun sp => join "," (map showl (snd sp)) ++ "=" ++ show_names (names (fst sp)) ++
+                             (if fixed (fst sp) then "!" else "")) l).
+End Paths.
+
+Definition show_tri (t : tri) : string := match t with Skip => "Skip" | Fail => "Fail" | Ok => "Ok" end.
+Definition show_flabel (l : flabel) : string := match l with FFix b => "X:" ++ b | FFinalize => "F" end.
+Definition show_alabel (l : alabel) : string :=
+  match l with ADonor t => "D:" ++ show_tri t | AAcceptor t => "A:" ++ show_tri t | AFinalize => "F" end.
+Definition show_wlabel (l : wlabel) : string :=
+  match l with WDonor t => "D:" ++ show_tri t | WAcceptor t => "A:" ++ show_tri t | WFinalize => "F" end.
+Definition show_clabel (l : clabel) : string :=
+  match l with
+  | CAcceptor b => if b then "A:first" else "A:second"
+  | CFix d => "X:" ++ d
+  | CFinalize None => "F:"
+  | CFinalize (Some b) => "F:" ++ b
+  end.
+
+Definition instance_paths (i : instance) : list string :=
+  match i_kind i with
+  | KFlip mv => map (fun o => show_paths _ show_flabel (paths_from _ (flip_step mv) (flabels mv) o)) (starts i)
+  | KAlc h => map (fun o => show_paths _ show_alabel (paths_from _ (alc_step h) alabels o)) (starts i)
+  | KWat => map (fun o => show_paths _ show_wlabel (paths_from _ wat_step wlabels o)) (starts i)
+  | KCarb c => map (fun o => show_paths _ show_clabel (paths_from _ (carb_step c) (clabels_of c) o)) (starts i)
+  end.
